@@ -14,6 +14,7 @@ Events (through the `emit` callback, in the calling thread): ["wspawn", wid, key
 ["poll", wid, alive] ["tclose", wid].
 """
 
+import enum
 import io
 import threading
 import time
@@ -73,8 +74,39 @@ class ExchState(StreamState):
         out.emit_pydict({"x": [self.tag * 1000 + v]})
 
 
+class Phase(enum.Enum):
+    """The worker's view of the enum: it knows one member more than the client (`ClientPhase`)."""
+
+    READY = "ready"
+    BUSY = "busy"
+    DRAINING = "draining"
+
+
+class ClientPhase(enum.Enum):
+    READY = "ready"
+    BUSY = "busy"
+
+
+@dataclass
+class Rec(ArrowSerializableDataclass):
+    """The worker's record; the client's (`ClientRec`) has a field the worker does not send."""
+
+    a: int
+
+
+@dataclass
+class ClientRec(ArrowSerializableDataclass):
+    a: int
+    b: int
+
+
 class PoolSvc(Protocol):
-    """Service of the C32 harness: every answer carries the caller's own number back."""
+    """Service of the C32 harness AS THE WORKER SEES IT: every answer carries the caller's own number back."""
+
+    def phase(self, k: int, bad: int) -> Phase: ...
+    def maybe(self, k: int, bad: int) -> int | None: ...
+    def rec(self, k: int, bad: int) -> Rec: ...
+    def label(self, k: int, bad: int) -> str: ...
 
     def echo(self, k: int) -> int: ...
     def noisy(self, k: int, n: int) -> int: ...
@@ -85,7 +117,37 @@ class PoolSvc(Protocol):
     def badstream(self, tag: int) -> Stream[ProdState]: ...
 
 
+class PoolSvcClient(Protocol):
+    """The same service AS THE CLIENTS SEE IT — one release behind: `phase` has an enum member less, `maybe` is not
+    optional, `rec` has another field, `label` is still an int.  Replies to these four arrive intact and fail in the
+    client's own validation / decoding of the value (an ordinary client-side Exception)."""
+
+    def phase(self, k: int, bad: int) -> ClientPhase: ...
+    def maybe(self, k: int, bad: int) -> int: ...
+    def rec(self, k: int, bad: int) -> ClientRec: ...
+    def label(self, k: int, bad: int) -> ClientPhase: ...
+    def echo(self, k: int) -> int: ...
+    def noisy(self, k: int, n: int) -> int: ...
+    def bad(self, k: int) -> int: ...
+    def prod(self, tag: int, n: int, logs: int) -> Stream[ProdState]: ...
+    def prodh(self, tag: int, n: int, logs: int) -> Stream[ProdState, Hdr]: ...
+    def exch(self, tag: int, logs: int) -> Stream[ExchState]: ...
+    def badstream(self, tag: int) -> Stream[ProdState]: ...
+
+
 class PoolSvcImpl:
+    def phase(self, k: int, bad: int) -> Phase:
+        return Phase.DRAINING if bad else Phase.READY  # bad: a member the client does not know
+
+    def maybe(self, k: int, bad: int) -> int | None:
+        return None if bad else k  # bad: None where the client's protocol says `int`
+
+    def rec(self, k: int, bad: int) -> Rec:
+        return Rec(a=k)  # the client's record wants a field `b` as well
+
+    def label(self, k: int, bad: int) -> str:
+        return "nonsense" if bad else "READY"  # a str where the client expects an enum member NAME
+
     def echo(self, k: int) -> int:
         return k
 
